@@ -151,7 +151,7 @@ rej:
 	polyVecLAdd(&z, &z, &y)
 	polyVecLReduce(&z)
 	if polyVecLChkNorm(&z, GAMMA1-BETA) != 0 {
-		verifSignEvent(1, nonce, &z, &w0, &h, 0)
+		verifSignEvent(1, nonce, sig[:SeedBytes], &z, &w0, &h, 0)
 		goto rej
 	}
 
@@ -162,28 +162,28 @@ rej:
 	polyVecKSub(&w0, &w0, &h)
 	polyVecKReduce(&w0)
 	if polyVecKChkNorm(&w0, GAMMA2-BETA) != 0 {
-		verifSignEvent(2, nonce, &z, &w0, &h, 0)
+		verifSignEvent(2, nonce, sig[:SeedBytes], &z, &w0, &h, 0)
 		goto rej
 	}
-	verifSignEvent(12, nonce, &z, &w0, &h, 0)
+	verifSignEvent(12, nonce, sig[:SeedBytes], &z, &w0, &h, 0)
 
 	/* Compute hints for w1 */
 	polyVecKPointWisePolyMontgomery(&h, &cp, &t0)
 	polyVecKInvNTTToMont(&h)
 	polyVecKReduce(&h)
 	if polyVecKChkNorm(&h, GAMMA2) != 0 {
-		verifSignEvent(3, nonce, &z, &w0, &h, 0)
+		verifSignEvent(3, nonce, sig[:SeedBytes], &z, &w0, &h, 0)
 		goto rej
 	}
-	verifSignEvent(13, nonce, &z, &w0, &h, 0)
+	verifSignEvent(13, nonce, sig[:SeedBytes], &z, &w0, &h, 0)
 
 	polyVecKAdd(&w0, &w0, &h)
 	n := polyVecKMakeHint(&h, &w0, &w1)
 	if n > OMEGA {
-		verifSignEvent(4, nonce, &z, &w0, &h, n)
+		verifSignEvent(4, nonce, sig[:SeedBytes], &z, &w0, &h, n)
 		goto rej
 	}
-	verifSignEvent(0, nonce, &z, &w0, &h, n)
+	verifSignEvent(0, nonce, sig[:SeedBytes], &z, &w0, &h, n)
 
 	if err := packSig(sig[:CryptoBytes], sig[:SeedBytes], &z, &h); err != nil {
 		return err
